@@ -242,6 +242,31 @@ def run_property(pid, tier, seed):
         for f in violations:
             path = write_replay(pid, f, tier, seed)
             replay_paths.append(path)
+    # 4b. bounded stand-in: a unit the verifier could not process (lost anchor / unsupported construct after a
+    # code change) is undecided for the proof; the replay enumerator is then run on the REAL code as a bounded
+    # check.  A concrete failing input is a demonstrated violation; finding none leaves the run inconclusive.
+    bounded = None
+    if any(m.startswith(('anchor-lost', 'tool-limit')) for m in inconclusive) and not violations and spec.get('replay'):
+        rp = spec['replay']
+        keys = sorted(set(rp.values())) if isinstance(rp, dict) else [rp]
+        bounded = {'keys': keys, 'found': None}
+        for key in keys:
+            try:
+                cex, slog = run_replay_search(key, {'name': 'bounded-standin', 'function': 'prop:' + pid}, seed)
+            except Exception as e:
+                cex, slog = None, 'replay search failed to run: %r' % (e,)
+            bounded[key] = slog.strip().split('\n')[-1][:200] if slog else ''
+            if cex:
+                f = {'name': 'bounded-standin::%s' % key, 'unit': 'replay', 'function': key, 'kind': 'bounded check on the real code (the verifier could not process the changed source)',
+                     'clause': None, 'site': None, 'rendered': 'unit(s) undecided by the verifier: ' + ' | '.join(inconclusive)[:1500], 'property': pid}
+                path = os.path.join(BUILD, 'replay', '%s-bounded-standin-%s.json' % (pid, key))
+                with open(path, 'w') as fo:
+                    json.dump({'property': pid, 'obligation': f['name'], 'kind': f['kind'], 'verifier_output': f['rendered'], 'failing_input': cex,
+                               'how_to_rerun': './check %s --replay %s' % (pid, path), 'label': 'bounded (not a proof obligation)'}, fo, indent=1)
+                violations.append(f)
+                replay_paths.append(path)
+                bounded['found'] = key
+                break
     wall = time.time() - t0
     # 5. evidence
     ev = {
@@ -261,6 +286,7 @@ def run_property(pid, tier, seed):
             'failed_obligations_of_other_properties': [f['name'] for f in foreign],
             'known_findings_hit': [f['name'] for f, _ in known_hits],
             'inconclusive': inconclusive,
+            'bounded_standin': bounded,
             'obligation_counting_rule': 'per extracted function: ensures clauses + 2 x loop-invariant clauses + decreases clauses + 1 (body safety: panics, overflow, bounds, callee preconditions); per template lemma: 1; per Kani harness: number of CBMC checks reported',
             'explanation': spec.get('explanation', ''),
         },
@@ -299,6 +325,8 @@ def write_replay(pid, f, tier, seed):
     cex = None
     search_log = ''
     rp = props.PROPS[pid].get('replay')
+    if isinstance(rp, dict):
+        rp = rp.get(f.get('unit')) or rp.get('*')
     if rp:
         try:
             cex, search_log = run_replay_search(rp, f, seed)
